@@ -237,6 +237,22 @@ class Run(object):
           raise RuntimeError("a worker process died (killed or crashed) while running kind cases; "
                              "its case cannot be identified - re-run with VERIF_WORKERS=1")
 
+  def _guard_gen(self, kname, cases):
+    """Enumerating the cases may itself call the library (strategy names, tables of functions):
+    if that raises, it is reported as a violation of this kind, not as a crash of the check."""
+    try:
+      for c in cases:
+        yield c
+    except Exception as exc:
+      tb = traceback.format_exc().splitlines()[-6:]
+      v = bad("generator-exception:" + type(exc).__name__,
+              "enumerating the cases of this kind raised: the library failed while the menu of cases "
+              "(names of strategies, tables of functions, ...) was being read", None,
+              {"exc": type(exc).__name__, "msg": str(exc)[:300], "tb": tb}).viol
+      v["replay_kind"] = kname
+      v["replay_case"] = {"generator": kname, "tier": self.tier, "seed": self.seed}
+      self.viols.append((kname, {"generator": kname}, v))
+
   def run_kind(self, kname, cases=None, quiet=False):
     kind = self.module.KINDS[kname]
     t0 = time.time()
@@ -246,6 +262,7 @@ class Run(object):
         "evaluations": 0, "nontrivial": set(), "outcomes": collections.Counter(),
         "violations": 0, "wall_s": 0.0, "rule": kind.rule,
         "extra": collections.Counter(), "succ": {}})
+    cases = self._guard_gen(kname, cases)
     jobs = ((kname, c) for c in chunks_of(cases, kind.chunk))
     if NPROC == 1:
       _init_worker(self.module.__name__)
@@ -413,7 +430,19 @@ def replay(module, path, quiet=False):
   kind = module.KINDS[art["kind"]]
   signal.signal(signal.SIGALRM, _alarm)
   limit_memory()     # a case that allocates without end must meet MemoryError here too
-  r = run_one(kind, _tuplify(from_json(art["case"])))
+  case = _tuplify(from_json(art["case"]))
+  if isinstance(case, dict) and "generator" in case:
+    # the violation was raised while the cases were enumerated: enumerate them again
+    def regen(_):
+      run = Run(module, case.get("tier", "quick"), int(case.get("seed", 0)))
+      for _c in kind.gen(run):
+        pass
+      return R()
+    r = run_one(Kind(None, regen, timeout=600), case)
+    if r.viol is not None and r.viol["key"].startswith("harness-exception:"):
+      r.viol["key"] = "generator-exception:" + r.viol["key"].split(":", 1)[1]
+  else:
+    r = run_one(kind, case)
   obs = None if r.viol is None else {"key": r.viol["key"],
                                      "observed": r.viol["observed"]}
   print("REPLAY " + json.dumps(obs, sort_keys=True))
